@@ -121,6 +121,45 @@ func DefaultParamSets(k Kind) []Params {
 			}
 			out = append(out, Params{SPS: s, PPS: H265PPS, VPS: v})
 		}
+		// the same streams declared in the High tier, as an interlaced source, or in a profile space
+		// other than 0 (profile_tier_level starts at byte 3 of the NAL unit: space, tier, profile;
+		// byte 8 opens the constraint flags). None of the vectors has an emulation prevention byte
+		// that early.
+		if len(H265SPSVectors) > 0 {
+			mod := func(i int, f func(b []byte)) Params {
+				// edit the payload without its emulation prevention bytes, then put them back
+				raw := H265SPSVectors[i%len(H265SPSVectors)]
+				var b []byte
+				for j := 0; j < len(raw); j++ {
+					if j >= 2 && raw[j] == 3 && raw[j-1] == 0 && raw[j-2] == 0 {
+						continue
+					}
+					b = append(b, raw[j])
+				}
+				f(b)
+				var out []byte
+				zeros := 0
+				for _, v := range b {
+					if zeros >= 2 && v <= 3 {
+						out = append(out, 3)
+						zeros = 0
+					}
+					out = append(out, v)
+					if v == 0 {
+						zeros++
+					} else {
+						zeros = 0
+					}
+				}
+				return Params{SPS: out, PPS: H265PPS, VPS: H265VPS}
+			}
+			out = append(out,
+				mod(0, func(b []byte) { b[3] |= 0x20 }),                // general_tier_flag
+				mod(1, func(b []byte) { b[8] = b[8]&^0x80 | 0x40 }),    // interlaced instead of progressive source
+				mod(0, func(b []byte) { b[8] |= 0x20; b[8] &^= 0x10 }), // non-packed constraint, not frame-only
+				mod(1, func(b []byte) { b[3] |= 0x40 }),                // general_profile_space 1
+			)
+		}
 	case AV1:
 		for _, s := range AV1SeqHdrVectors {
 			out = append(out, Params{Seq: s})
